@@ -88,9 +88,43 @@ def check(d, props):
     return out_all
 
 
+def keep(d, name, props, note=""):
+    """confirm, run the checks, and store under /verif/seeded/<property>/<name>/"""
+    import shutil
+    meta = json.load(open(os.path.join(d, "meta.json")))
+    c = confirm(d)
+    if not c.get("confirmed"):
+        print("NOT CONFIRMED", json.dumps(c, indent=1))
+        return 2
+    r = check(d, props)
+    dest = os.path.join(VERIF, "seeded", meta["property"], name)
+    os.makedirs(dest, exist_ok=True)
+    shutil.copy(os.path.join(d, "patch.diff"), dest)
+    shutil.copy(os.path.join(d, "demo.py"), dest)
+    head = sh(["git", "-C", "/repo", "rev-parse", "--short", "HEAD"])[1].strip()
+    meta.update({"breaks_property": meta["property"], "origin": "independent sub-agent given only the property text and a scratch worktree",
+                 "confirmed_by_me": {"repo_head": head, "suite": c["suite_tail"], "demo_exit_unchanged": c["demo_exit_unchanged"],
+                                     "demo_exit_changed": c["demo_exit_changed"],
+                                     "how": "tools/seeded.py confirm: scratch worktree of /repo HEAD, git apply patch.diff, full pytest suite, demo.py with and without the change"},
+                 "checks_run": {p: {"caught": v["caught"], "violation_lines": v["lines"], "summary": v["summary"], "detail": v["detail"]}
+                                for p, v in r.items()},
+                 "note": note})
+    json.dump(meta, open(os.path.join(dest, "meta.json"), "w"), indent=1)
+    print(meta["property"], name, {p: v["caught"] for p, v in r.items()})
+    return 0
+
+
 if __name__ == "__main__":
     cmd, d = sys.argv[1], sys.argv[2]
     if cmd == "confirm":
         print(json.dumps(confirm(d), indent=1))
+    elif cmd == "keep":
+        note = ""
+        rest = sys.argv[4:]
+        if "--note" in rest:
+            i = rest.index("--note")
+            note = rest[i + 1]
+            rest = rest[:i]
+        sys.exit(keep(os.path.abspath(d), sys.argv[3], rest, note))
     else:
         print(json.dumps(check(d, sys.argv[3:]), indent=1))
